@@ -370,6 +370,10 @@ fn stmt(rng: &mut Rng, a: &mut Asm, cfg: &StructCfg, depth: u32, budget: &mut i3
         30
     } else if rng.chance(1, 16) {
         31
+    } else if rng.chance(1, 14) {
+        32
+    } else if rng.chance(1, 16) {
+        33
     } else {
         choice
     };
@@ -969,6 +973,95 @@ fn stmt(rng: &mut Rng, a: &mut Asm, cfg: &StructCfg, depth: u32, budget: &mut i3
             });
             a.output(y);
         }
+        33 => {
+            // a square or product is computed into y, then a factor is clobbered by input and y is
+            // overwritten without having been read (or after exactly one use)
+            let (x, y) = two(rng);
+            let p = k + cfg.scratch + 1;
+            let (t1, t2, z) = (p, p + 1, p + 2);
+            a.clear(t1);
+            a.clear(t2);
+            if rng.coin() {
+                a.input(x);
+            }
+            let square = rng.chance(2, 3);
+            if !square {
+                a.clear(z);
+                a.input(z);
+            }
+            // t1 = x (x kept)
+            a.while_(x, |a| {
+                a.add(t1, 1);
+                a.add(t2, 1);
+                a.add(x, -1);
+            });
+            a.while_(t2, |a| {
+                a.add(x, 1);
+                a.add(t2, -1);
+            });
+            let f = if square { x } else { z };
+            a.while_(t1, |a| {
+                a.while_(f, |a| {
+                    a.add(y, 1);
+                    a.add(t2, 1);
+                    a.add(f, -1);
+                });
+                a.while_(t2, |a| {
+                    a.add(f, 1);
+                    a.add(t2, -1);
+                });
+                a.add(t1, -1);
+            });
+            match rng.below(3) {
+                0 => a.output(y),
+                1 => a.output(x),
+                _ => {}
+            }
+            a.input(f);
+            a.clear(y);
+            a.add(y, rng.range(0, 3));
+            a.output(y);
+            a.output(f);
+        }
+        32 => {
+            // an `if` (taken or not, decided by input) whose body *ends* with a read of y that
+            // keeps y, and right behind the `if` y is cleared / overwritten / read in, then shown
+            let (y, z) = two(rng);
+            let p = k + cfg.scratch + 1;
+            let (c, t) = (p, p + 1);
+            a.clear(c);
+            a.clear(t);
+            a.input(c);
+            if rng.coin() {
+                a.input(y);
+            } else {
+                a.add(y, rng.range(1, 9));
+            }
+            let other_first = rng.coin();
+            a.while_(c, |a| {
+                if other_first {
+                    a.add(z, 1);
+                }
+                // z += y, y kept: the restoring loop is the last thing in the body (before c = 0)
+                a.while_(y, |a| {
+                    a.add(z, 1);
+                    a.add(t, 1);
+                    a.add(y, -1);
+                });
+                a.while_(t, |a| {
+                    a.add(y, 1);
+                    a.add(t, -1);
+                });
+                a.clear(c);
+            });
+            match rng.below(4) {
+                0 | 1 => a.clear(y),
+                2 => a.set(y, rng.range(1, 5)),
+                _ => a.input(y),
+            }
+            a.output(y);
+            a.output(z);
+        }
         31 => {
             // a computed value, then a loop known to run at least once, then an `if` whose body
             // holds a loop that keeps reading the early value while it computes something else
@@ -1163,6 +1256,7 @@ pub fn pressure(rng: &mut Rng, width: u32) -> String {
     }
     a.input(counter);
     let mode = rng.below(4);
+    let wide = width >= 32 && rng.chance(1, 3);
     let _ = t1;
     a.while_(counter, |a| {
         // Simultaneous update of all ring cells, written so that the optimiser sees
@@ -1175,16 +1269,43 @@ pub fn pressure(rng: &mut Rng, width: u32) -> String {
             let d = shadow(i);
             let c1 = *rng.pick(&[1i64, 1, 2, 3, -1, -2]);
             let c2 = *rng.pick(&[1i64, 1, 2, -1, 0]);
-            // d += c1 * s1 (non-destructive via t0)
-            a.while_(s1, |a| {
-                a.add(d, c1);
-                a.add(t0, 1);
-                a.add(s1, -1);
-            });
-            a.while_(t0, |a| {
-                a.add(s1, 1);
-                a.add(t0, -1);
-            });
+            if wide && rng.chance(1, 2) {
+                // d += m^(j+1) * s1 through a chain of multiply loops that the optimiser folds into
+                // one multiplier beyond 32 bits (s1 kept): wide immediates under register pressure
+                let u = |k: i64| n + 3 + n + 1 + k;
+                let m = *rng.pick(&[15i64, 16, 10, 7, 255]);
+                let j = rng.range(5, 8);
+                a.while_(s1, |a| {
+                    a.add(u(0), 1);
+                    a.add(t0, 1);
+                    a.add(s1, -1);
+                });
+                a.while_(t0, |a| {
+                    a.add(s1, 1);
+                    a.add(t0, -1);
+                });
+                for k in 0..j {
+                    a.while_(u(k), |a| {
+                        a.add(u(k + 1), m);
+                        a.add(u(k), -1);
+                    });
+                }
+                a.while_(u(j), |a| {
+                    a.add(d, m);
+                    a.add(u(j), -1);
+                });
+            } else {
+                // d += c1 * s1 (non-destructive via t0)
+                a.while_(s1, |a| {
+                    a.add(d, c1);
+                    a.add(t0, 1);
+                    a.add(s1, -1);
+                });
+                a.while_(t0, |a| {
+                    a.add(s1, 1);
+                    a.add(t0, -1);
+                });
+            }
             match mode {
                 0 | 1 => {
                     if c2 != 0 {
